@@ -295,11 +295,10 @@ class CallsMixin:
         if len(ge.generators) != 1:
             raise Unsupported('set(genexp) with several generators')
         g = ge.generators[0]
-        if not (isinstance(ge.elt, ast.Name) and isinstance(g.target, ast.Name) and ge.elt.id == g.target.id):
-            raise Unsupported('set(genexp) whose element is not the loop variable')
         src = self.eval(g.iter)
-        if not (isinstance(src, V) and isinstance(src.kind, K.Set)):
-            raise Unsupported('set(genexp) over %r' % (src,))
+        if not (isinstance(ge.elt, ast.Name) and isinstance(g.target, ast.Name) and ge.elt.id == g.target.id
+                and isinstance(src, V) and isinstance(src.kind, K.Set)):
+            return self.image_set(ge.elt, ge.generators)
         xs = self.p.fresh_value(src.kind.elem, 'sub!x')
         saved_env = dict(self.env)
         saved_spec, self.spec = self.spec, True
@@ -364,6 +363,12 @@ class CallsMixin:
         k = base.kind.inner if isinstance(base.kind, K.Opt) else base.kind
         if isinstance(k, K.Ref):
             key, fk = self.heap_key(k.cls, name.as_string())
+            if key is None:
+                subs = [c for c in self.w.subclasses(k.cls) if self.w.field_kind(c, name.as_string())[0] is not None
+                        or self.w.find_method(c, name.as_string()) is not None]
+                if subs:
+                    t = K.opt_inner(base).t if isinstance(base.kind, K.Opt) else base.t
+                    return K.vbool(z3.Or(*[self.p.ctx.dtype(t) == self.p.ctx.class_id(c) for c in subs]))
             if key is not None:
                 # declared optional-presence fields: '<field>?' ghost presence
                 pk, pkind = self.heap_key(k.cls, name.as_string() + '?')
@@ -722,6 +727,8 @@ class CallsMixin:
             elif name == 'remove':
                 self.implicit_raise(K.set_has(base, args[0]), 'KeyError', 'set.remove', node)
                 upd = K.set_remove(base, args[0])
+            elif name == 'update' and len(args) == 1 and isinstance(args[0], PyObj) and args[0].tag == 'genexp':
+                upd = self.image_set(args[0].node.elt, args[0].node.generators, base=base)
         elif isinstance(k, K.Map):
             if name == 'get':
                 dflt = args[1] if len(args) > 1 else K.NONE
